@@ -77,7 +77,9 @@ CLAIMED["C11"] = dict(
 CLAIMED["C04"] = dict(
     engine="tlc+selection", design_ref="4.4",
     technique="TLA+ Selection.tla Routed/Eligible operators checked by TLC on the enumerated space x packet kind x "
-              "critical window; every vector replayed through the real handle_srt_packet",
+              "critical window; every vector replayed through the real handle_srt_packet"
+              "; the UNMODIFIED event loop (run_sender_with_config on a paused clock, real sockets) recorded end to end and "
+              "validated by TLC against the observer Trace_Loop.tla (unique copies leave only from sockets REG3 has reached, on links heard from within the timeout; outage / receiver-restart / send-failure schedules)",
     text="For every enumerated link-state vector, packet kind (data / retransmit-flagged / control) and critical "
          "window state TLC checks that the routed link is eligible, and the real shell entry point handle_srt_packet "
          "is run on the materialised vector: the link whose queue received the unique copy must be registered, not "
@@ -261,7 +263,9 @@ CLAIMED["C20"] = dict(
               "it (FIFO async mutex, liveness with no fairness on subscribers); every TLC transition replayed on the "
               "real SubscriptionHub by a manual single-thread executor (real futures polled by hand, real bounded "
               "tokio mpsc channels, verif-hooks scheduling points); recorded random schedules validated by TLC "
-              "against the property-level hub",
+              "against the property-level hub"
+              "; the UNMODIFIED event loop (run_sender_with_config on a paused clock, real sockets) recorded end to end and "
+              "validated by TLC against the observer Trace_Loop.tla (with subscribers that never read and a second publisher task, the loop stays live: flush deadline and keepalive cadence hold)",
     text="TLC explores every interleaving, at the await points, of subscribe (AllocId / Insert), unsubscribe, publish "
          "(Fanout / Prune) by 2-3 tasks and subscriber-side receive / close over 2 channels of capacity 1-2, both "
          "topics, shared channels, up to 3 subscriptions and 3 publishes (7e6-2e7 transitions), and checks unique "
